@@ -2,7 +2,7 @@
 
 use core::{num::NonZeroU128, ops::Add};
 
-use num_traits::{AsPrimitive, Euclid};
+use num_traits::AsPrimitive;
 
 use crate::{
     builtins::core::{timezone::TimeZone, PlainDate, PlainDateTime},
